@@ -184,21 +184,35 @@ func confirmAndMinimise(b builds, cfg tierCfg, viol *proto.Record) *proto.Record
 			}
 			m.cands++
 		}
-		// 2. drop operations
-		for changed := true; changed && !m.exhausted(); {
-			changed = false
-			var cands []*proto.Record
-			for t := range cur.Run.Tasks {
-				for k := len(cur.Run.Tasks[t].Ops) - 1; k >= 0; k-- {
+		// 2. drop operations: per task, delta debugging with chunks of decreasing size
+		for t := range cur.Run.Tasks {
+			for chunk := (len(cur.Run.Tasks[t].Ops) + 1) / 2; chunk >= 1 && !m.exhausted() && len(cur.Run.Tasks[t].Ops) > 0; {
+				var cands []*proto.Record
+				n := len(cur.Run.Tasks[t].Ops)
+				for s0 := n; s0 > 0; s0 -= chunk { // from the end
+					lo := s0 - chunk
+					if lo < 0 {
+						lo = 0
+					}
 					c := cloneRec(cur)
 					ops := c.Run.Tasks[t].Ops
-					c.Run.Tasks[t].Ops = append(ops[:k:k], ops[k+1:]...)
+					c.Run.Tasks[t].Ops = append(ops[:lo:lo], ops[s0:]...)
 					cands = append(cands, c)
 				}
-			}
-			if i, _ := m.firstHolding(cands); i >= 0 {
-				cur = cands[i]
-				changed = true
+				if i, _ := m.firstHolding(cands); i >= 0 {
+					cur = cands[i]
+					if chunk > len(cur.Run.Tasks[t].Ops) {
+						chunk = len(cur.Run.Tasks[t].Ops)
+					}
+					if chunk < 1 {
+						break
+					}
+					continue
+				}
+				if chunk == 1 {
+					break
+				}
+				chunk = (chunk + 1) / 2
 			}
 		}
 		// 3. simplify the schedule: no preemption at all, then drop single events
